@@ -398,7 +398,7 @@ def run_generic(ctx):
             ctx.prop, variant, mon["records"], mon["wall"], len(mon["verdicts"])))
         if variant == "dbg":
             self_test(ctx, variant, paths)
-            if ctx.prop in ("C09", "C10", "C11"):
+            if ctx.prop in ("C06", "C09", "C10", "C11"):
                 model_leg(ctx, paths, "M" + ctx.prop[1:])
     return finish(ctx, "model_checking", RULES["generic"],
                   ["position tables (byte offset, line, column per code point) come from the harness and are "
